@@ -472,6 +472,8 @@ class MBXMLDocument:
                     t: MBXMLToken = copy(tokendef_setting)
                     t.token_id = tokendef_id
                     t.value = value
+                    # copy() is shallow, do not edit attributes list of the token definition
+                    t.attributes = list(tokendef_setting.attributes)
 
                     for attr_inst in attributes_to_set:
                         # remove attr id from list
